@@ -9,9 +9,9 @@ pub struct St { pub result: Seq<Seq<char>>, pub buf: Seq<char>, pub in_quotes: b
 
 pub open spec fn init() -> St { St { result: seq![], buf: seq![], in_quotes: false, escaping: false, err: false } }
 pub uninterp spec fn is_ws(c: char) -> bool;      // char::is_whitespace
-// assumed facts about char::is_whitespace (Unicode White_Space): space is, quote and backslash are not
+// assumed facts about char::is_whitespace (Unicode White_Space): space, LF, CR, TAB are; quote, backslash, 'n', 'r' are not
 pub broadcast axiom fn ws_facts()
-    ensures #[trigger] is_ws(' '), !is_ws('"'), !is_ws('\\');
+    ensures #[trigger] is_ws(' '), !is_ws('"'), !is_ws('\\'), is_ws('\n'), is_ws('\r'), is_ws('\t'), !is_ws('n'), !is_ws('r');
 
 pub open spec fn step(st: St, c: char, multi: bool) -> St {
     if st.err { st }
@@ -85,14 +85,13 @@ pub proof fn lemma_err_sticky(st: St, t: Seq<char>, multi: bool)
 }
 
 // ---------- spec: the writer the *property* needs: "read back exactly as emitted" => escape backslash and quote ----------
+pub open spec fn esc1(c: char) -> Seq<char> {
+    if c == '\\' { seq!['\\', '\\'] } else if c == '"' { seq!['\\', '"'] } else if c == '\n' { seq!['\\', 'n'] } else if c == '\r' { seq!['\\', 'r'] } else { seq![c] }
+}
 pub open spec fn esc(a: Seq<char>) -> Seq<char>
     decreases a.len()
 {
-    if a.len() == 0 { seq![] }
-    else {
-        let c = a[0];
-        (if c == '\\' || c == '"' { seq!['\\', c] } else { seq![c] }) + esc(a.drop_first())
-    }
+    if a.len() == 0 { seq![] } else { esc1(a[0]) + esc(a.drop_first()) }
 }
 pub open spec fn enc_arg(a: Seq<char>) -> Seq<char> { seq![' ', '"'] + esc(a) + seq!['"'] }
 pub open spec fn enc_args(args: Seq<Seq<char>>) -> Seq<char>
@@ -113,18 +112,19 @@ pub proof fn lemma_esc_inside(st: St, a: Seq<char>)
     } else {
         let c = a[0];
         let rest = a.drop_first();
-        let head = if c == '\\' || c == '"' { seq!['\\', c] } else { seq![c] };
+        let head = esc1(c);
         assert(esc(a) == head + esc(rest));
         lemma_run_concat(st, head, esc(rest), true);
         let mid = St { buf: st.buf.push(c), ..st };
-        if c == '\\' || c == '"' {
+        if c == '\\' || c == '"' || c == '\n' || c == '\r' {
+            let second = head[1];
             let s1 = step(st, '\\', true);
             assert(s1 == (St { escaping: true, ..st }));
-            assert(head.drop_first() =~= seq![c]);
-            assert(seq![c].drop_first() =~= Seq::<char>::empty());
-            assert(run_from(st, head, true) == run_from(s1, seq![c], true));
-            assert(run_from(s1, seq![c], true) == run_from(step(s1, c, true), seq![], true));
-            assert(step(s1, c, true) == mid);
+            assert(head.drop_first() =~= seq![second]);
+            assert(seq![second].drop_first() =~= Seq::<char>::empty());
+            assert(run_from(st, head, true) == run_from(s1, seq![second], true));
+            assert(run_from(s1, seq![second], true) == run_from(step(s1, second, true), seq![], true));
+            assert(step(s1, second, true) == mid);
         } else {
             assert(head.drop_first() =~= Seq::<char>::empty());
             assert(run_from(st, head, true) == run_from(step(st, c, true), seq![], true));
